@@ -55,6 +55,10 @@ type SchemaOpts struct {
 type Universe struct {
 	Dims     []DimSpec
 	ValNames []string
+	// NoConst: no constant operands in generated field expressions (keeps the
+	// recorded finding C01-gap-row-const out of comparisons that cannot
+	// recognise its phantom rows)
+	NoConst bool
 }
 
 func genUniverse(r *Rng) *Universe {
@@ -156,7 +160,7 @@ func genFieldExpr(r *Rng, u *Universe, prior []FieldDef, depth int) *FieldExpr {
 			switch {
 			case y < 0.25 && len(prior) > 0:
 				return &FieldExpr{Kind: "ref", Ref: PickOne(r, prior).Name}
-			case y < 0.4:
+			case y < 0.4 && !u.NoConst:
 				return &FieldExpr{Kind: "const", C: float64(r.Range(1, 5))}
 			case y < 0.5 && depth > 1:
 				return genFieldExpr(r, u, prior, depth-1)
